@@ -8,6 +8,7 @@
 #include "Archive/ClmFile.h"
 #include <memory>
 #include <sys/stat.h>
+#include <unistd.h>
 
 using namespace verif;
 using namespace OP2Utility::Archive;
@@ -287,7 +288,37 @@ void run_case(Tape& t, Stats& st) {
 	archive_case(kind, bytes, calls, st, "structured");
 }
 
+// Accumulation: several hundred refused calls in one process (more than the descriptor budget of a harness process, see common/main.cpp), then lawful
+// calls - which must behave as if the refused ones had never been made.  A resource that a refusal path does not give back shows here.
+void refusal_storm(Kind kind, Stats& st) {
+	std::vector<uint8_t> bytes; std::vector<uint8_t> good0;
+	if (kind == KVol) { std::vector<refvol::Member> ms(2); ms[0].name = "good.bin"; ms[0].payload = {1, 2, 3, 4, 5, 6, 7, 8, 9, 10}; ms[1].name = "zbad.bin"; ms[1].payload.assign(40, 0x33); for (auto& m : ms) m.sizeField = uint32_t(m.payload.size()); bytes = refvol::encode(ms); good0 = ms[0].payload; }
+	else { std::vector<refclm::Track> ts = {{"good", {9, 8, 7, 6, 5, 4}}, {"zbad", std::vector<uint8_t>(40, 0x44)}}; bytes = refclm::encode({1, 1, 22050, 44100, 2, 16}, ts); good0 = ts[0].data; }
+	bytes.resize(bytes.size() - 9);                                   // the last member's recorded extent now runs past the end of the file
+	std::string ap = scratch_path(kind == KVol ? "storm.vol" : "storm.clm"), bad = scratch_path("storm_bad.bin"), xp = scratch_path("storm_x.bin"), dir = scratch_path("storm_dir");
+	write_file(ap, bytes); write_file(bad, std::vector<uint8_t>{'n', 'o', 'p', 'e', 0, 0, 0, 0, 1, 2, 3, 4}); mkdir(dir.c_str(), 0700);
+	std::unique_ptr<ArchiveFile> a; if (kind == KVol) a = std::make_unique<VolFile>(ap); else a = std::make_unique<ClmFile>(ap);
+	auto lawful = [&](const char* when) { std::string what; Out o = guarded([&] { auto s2 = a->OpenStream(0); std::vector<uint8_t> got(size_t(s2->Length())); s2->Read(got.data(), got.size()); V_CHECK(got == good0, "member 0 delivers other bytes " << when); a->ExtractFile(0, xp); std::vector<uint8_t> ex; V_CHECK(read_file(xp, ex) && (kind == KClm || ex == good0), "extraction of member 0 wrong " << when); remove(xp.c_str()); }, &what);
+		V_CHECK(o == Out::Ok, "a lawful stream + extraction of member 0 failed " << when << ": " << what);
+		o = guarded([&] { if (kind == KVol) VolFile f2(ap); else ClmFile f2(ap); }, &what); V_CHECK(o == Out::Ok, "opening the archive again failed " << when << ": " << what); };
+	lawful("before any refused call");
+	for (int i = 0; i < 400; ++i) V_CHECK(guarded([&] { a->OpenStream(1); }) == Out::Err, "stream of a member whose extent is outside the file was delivered");
+	lawful("after 400 refused OpenStream calls");
+	for (int i = 0; i < 400; ++i) V_CHECK(guarded([&] { a->ExtractFile(1, xp); }) == Out::Err, "extraction of a member whose extent is outside the file succeeded"); remove(xp.c_str());
+	lawful("after 400 refused ExtractFile calls");
+	for (int i = 0; i < 400; ++i) guarded([&] { a->ExtractFile(0, dir); });
+	lawful("after 400 extractions onto a directory");
+	for (int i = 0; i < 400; ++i) { guarded([&] { a->OpenStream(2 + size_t(i % 3)); }); guarded([&] { (void)a->GetIndex("absent.bin"); }); }
+	lawful("after 400 calls with an index beyond the count / an absent name");
+	for (int i = 0; i < 400; ++i) V_CHECK(guarded([&] { if (kind == KVol) VolFile f2(bad); else ClmFile f2(bad); }) == Out::Err, "a file that is no archive was opened");
+	for (int i = 0; i < 400; ++i) guarded([&] { if (kind == KVol) VolFile f2(scratch_path("storm_missing")); else ClmFile f2(scratch_path("storm_missing")); });
+	lawful("after 800 refused opens");
+	a.reset(); remove(ap.c_str()); remove(bad.c_str()); rmdir(dir.c_str());
+	st.cls("refusal_storm"); st.nt(hmix(kind, 0x5707));
+}
+
 void run_sweep(Stats& st) {
+	for (unsigned k = 0; k < 2; ++k) if (sw("refusal_storm", k)) refusal_storm(Kind(k), st);
 	// every proper prefix and every (field x boundary value) substitution of every seed
 	for (unsigned k = 0; k < 2; ++k) {
 		Kind kind = Kind(k);
